@@ -6,8 +6,8 @@ cd "$(dirname "$0")/.."
 want="$*"
 sel() { [ -z "$want" ] || echo " $want " | grep -q " $1 "; }
 for d in seeded/*/; do
-  P=$(basename $d); sel $P || continue
-  [ -f $d/patch.diff ] && tools/mutant.sh $d/patch.diff $P 2>&1 | sed "s/^MUTANT patch.diff/SEEDED $P/" | cut -c1-220
+  D=$(basename $d); P=${D%[a-z]}; sel $P || continue
+  [ -f $d/patch.diff ] && tools/mutant.sh $d/patch.diff $P 2>&1 | sed "s/^MUTANT patch.diff/SEEDED $D/" | cut -c1-220
 done
 for m in mutants/*.patch; do
   b=$(basename $m); props=$(echo ${b%%_*} | sed 's/C/ C/g')
